@@ -276,11 +276,9 @@ def run(args):
                 if args.transform_left else args.transform_right
         transform = file_interface.load_transform(tf_path)
         if args.invert_transform:
-            if lie.is_se3(transform):
-                transform = lie.se3_inverse(transform)
-            else:
-                # load_transform() also accepts Sim(3) matrices.
-                transform = lie.sim3_inverse(transform)
+            # load_transform() accepts SE(3) and Sim(3) matrices,
+            # sim3_inverse() is the inverse of both.
+            transform = lie.sim3_inverse(transform)
         logger.debug(SEP)
         logger.debug("Applying a {}-multiplicative transformation:\n{}".format(
             tf_type, transform))
